@@ -20,8 +20,9 @@ struct Obj : public tlx::ReferenceCounter {
     int payload;
     int* heap;
     explicit Obj(int x) : payload(x), heap(new int(x)) { ++g_live; }
-    Obj(const Obj& o) : tlx::ReferenceCounter(o), payload(o.payload), heap(new int(*o.heap)) { ++g_live; }
-    ~Obj() { ++g_dtor; --g_live; delete heap; heap = nullptr; }
+    Obj(const Obj& o) : tlx::ReferenceCounter(o), payload(o.payload), heap(new int(*o.heap)), is_clone(true) { ++g_live; }
+    bool is_clone = false;
+    ~Obj() { if (!is_clone) ++g_dtor; --g_live; delete heap; heap = nullptr; }
 };
 using P = tlx::CountingPtr<Obj>;
 using PC = tlx::CountingPtr<const Obj>;
@@ -40,7 +41,15 @@ static void work(P mine, long iters, unsigned long long seed, std::atomic<int>* 
         case 3: { P x(mine.get()); P y; y = std::move(x); hs.push_back(y); break; }  // from raw, move assign, copy
         case 4: if (!hs.empty()) hs.pop_back(); break;                               // dtor
         case 5: if (!hs.empty()) { hs.back().reset(); hs.pop_back(); } break;
-        case 6: if (hs.size() >= 2) { hs[0] = hs.back(); hs[1] = std::move(hs[0]); } break;   // alias assignments
+        case 6:
+            if (i & 1) { if (hs.size() >= 2) { hs[0] = hs.back(); hs[1] = std::move(hs[0]); } }   // alias assignments
+            else {                                                                              // a no-delete handle and unify on a private copy
+                tlx::CountingPtrNoDelete<Obj> nd(mine.get()); tlx::CountingPtrNoDelete<Obj> nd2(nd);
+                if (mine.use_count() < 3) ++g_errors;
+                P x(mine); x.unify();
+                if (x.get() == mine.get() || *x->heap != 41 || !x.unique()) ++g_errors;
+            }
+            break;
         default: if (!hs.empty()) { if (*hs.back()->heap != hs.back()->payload) ++g_errors; } break;
         }
         if (g_dtor.load(std::memory_order_relaxed) != 0) ++g_errors;                 // destroyed while `mine` is held
@@ -54,13 +63,21 @@ static void work(P mine, long iters, unsigned long long seed, std::atomic<int>* 
 // a second Deleter call is detected as such, not as a crash: every object must see exactly one call.
 struct Obj2 : public tlx::ReferenceCounter {
     std::atomic<int> deleter_calls{0};
+    bool is_clone = false;
+    Obj2() {}
+    Obj2(const Obj2& o) : tlx::ReferenceCounter(o), is_clone(true) {}      // made by unify()
 };
+static std::atomic<long> g_clones_made{0}, g_clones_deleted{0};
 struct CountDel {
-    void operator()(Obj2* p) const noexcept { p->deleter_calls.fetch_add(1); }
+    void operator()(Obj2* p) const noexcept {
+        if (p->is_clone) { ++g_clones_deleted; delete p; }                  // clones are owned by one thread only
+        else p->deleter_calls.fetch_add(1);
+    }
 };
 using PR = tlx::CountingPtr<Obj2, CountDel>;
 
 static long release_race(int k, int nobj) {
+    g_clones_made = 0; g_clones_deleted = 0;
     std::vector<Obj2*> objs(nobj);
     std::vector<std::vector<PR>> hs(k);
     std::vector<std::atomic<int>> arrive(nobj);
@@ -72,12 +89,19 @@ static long release_race(int k, int nobj) {
             for (int i = 0; i < nobj; ++i) {
                 arrive[i].fetch_add(1);
                 while (arrive[i].load(std::memory_order_acquire) < k) {}
-                if (i % 3 == 0) hs[t][i].reset(); else if (i % 3 == 1) hs[t][i] = PR(); else { PR x(std::move(hs[t][i])); }
+                if (t == 0 && i % 4 == 3) {              // unify() racing with the release of the other handles
+                    Obj2* before = hs[t][i].get();
+                    hs[t][i].unify();
+                    if (hs[t][i].get() != before) ++g_clones_made;
+                    hs[t][i].reset();
+                }
+                else if (i % 3 == 0) hs[t][i].reset(); else if (i % 3 == 1) hs[t][i] = PR(); else { PR x(std::move(hs[t][i])); }
             }
         });
     for (auto& t : th) t.join();
     long wrong = 0;
     for (int i = 0; i < nobj; ++i) { if (objs[i]->deleter_calls.load() != 1) ++wrong; }
+    if (g_clones_made.load() != g_clones_deleted.load()) ++wrong;
     for (int t = 0; t < k; ++t) hs[t].clear();
     for (int i = 0; i < nobj; ++i) delete objs[i];
     return wrong;
